@@ -59,12 +59,20 @@ func checkC13(c *Ctx, n int) {
 		if g.chance(0.4) {
 			collided = g.collidePriority(cs.Build[0].Struct)
 		}
+		prefixed := false
+		if i%2 == 1 && g.chance(0.4) && cs.Build[0].Struct != nil {
+			// sibling commands of which one is named by the other's name plus a suffix
+			prefixed = g.collidePrefixCommands(cs.Build[0].Struct)
+		}
 		real, _ := BuildReal(cs)
 		if real.dead || !uniqueSubcommandNames(real) {
 			continue
 		}
 		if collided {
 			c.Class("c13/deliberate-cross-group-name-clash")
+		}
+		if prefixed {
+			c.Class("c13/sibling-commands-one-name-a-prefix-of-the-other")
 		}
 		// candidate sections of the parser's own groups
 		type sec struct {
@@ -457,6 +465,14 @@ func checkC05(c *Ctx, n int) {
 					for x := 0; x < count(); x++ {
 						po.env = append(po.env, val("env", x))
 					}
+					if code == "Lstr" && r.Intn(3) == 0 {
+						// an empty element is an element (a,,b / a,b, / ,a / the variable set but empty)
+						at := r.Intn(len(po.env) + 1)
+						po.env = append(po.env[:at:at], append([]string{""}, po.env[at:]...)...)
+						if r.Intn(4) == 0 {
+							po.env = []string{""}
+						}
+					}
 					full := key
 					if useNs {
 						full = strings.Join(nsLevels, envDelim) + envDelim + key
@@ -615,12 +631,21 @@ func checkC15(c *Ctx, n int, reps int) {
 				}
 			}
 		}
+		tied := false
+		if g.chance(0.4) && cs.Build[0].Struct != nil {
+			// sibling commands at one and the same distance from an unknown word
+			tied = g.collideTiedCommands(cs.Build[0].Struct)
+		}
 		g.addProgrammatic(cs)
 		real, _ := BuildReal(cs)
 		if real.dead {
 			continue
 		}
 		ops := []Op{}
+		if tied && len(real.p.Command.Args()) == 0 {
+			c.Class("c15/tied-command-names")
+			ops = append(ops, Op{Kind: "parse", Args: []string{"bet"}}, Op{Kind: "parse", Args: []string{"bot", "x"}})
+		}
 		// the same key from several sections
 		ini := g.genIniText(real, iniProfile{Noise: 0.1})
 		if g.chance(0.6) {
